@@ -14,7 +14,7 @@ import (
 )
 
 func init() {
-	Register(&Scenario{Prop: "C07", Name: "docstore-lww", Run: scenC07, Weight: 1,
+	Register(&Scenario{Prop: "C07", Name: "docstore-lww", Run: scenC07, SoftParks: true, Weight: 1,
 		Rule: "1-3 writer replicas of one document database; 3-14 (thorough 3-40) operations drawn from Put, PutBatch, PutAll (overlapping key sets), Delete (present and absent keys) over mixed-case keys of letters, digits and punctuation, interleaved with replication under faults; at every quiescent step each replica's documents must equal the LWW replay of its own log; at checkpoints Get with all four option combinations over every key, every 1-2 character infix and case variants, and four Query predicates are compared with the model; Delete of an absent key must fail and append nothing; non-trivial = >=3 writes including a batch put and an overlapping later/earlier single operation on one of its keys"})
 }
 
